@@ -21,6 +21,7 @@ let run_z inp obs : string option * string option =
          let codes = Stdlib.List.map Util.int_of_nat (EventsSpec.end_codes l) in
          match codes with
          | [c] when (status = "200") = (c = 0) -> (None, None)
+         | [_] when String.length v > 8 && String.sub v 0 8 = "timeout:" -> (None, None)   (* gRPC: the HTTP status is 200 also for an error *)
          | _ -> (Some (what ^ ": the End event does not say what the client was told (an error iff the status is not 200)"), None)
      with Failure e -> (Some ("HTTP call with Content-Encoding: " ^ e), None))
   | _ -> (Some "unparsable C18Z case", None)
